@@ -23,7 +23,7 @@ def owner(clause):
 def plan(tier, seed):
     jobs = []
     gen = ('gen', 900 + seed)
-    nbase = 48 if tier == 'thorough' else 12
+    nbase = 18 if tier == 'thorough' else 8
     step = 3 if tier == 'thorough' else 2
     for cfgspec in (('pkg',), gen):
         for codec in ('latin_1', 'cp500'):
